@@ -315,7 +315,7 @@ func (cuckooFilter *CuckooFilterRedis) setMetadata(length uint64) error {
 	metadata["fingerPrintLength"] = cuckooFilter.fingerPrintLength
 	metadata["retries"] = cuckooFilter.retries
 	metadata["key"] = cuckooFilter.key
-	metadata["length"] = 0
+	metadata["length"] = length
 	return getRedisClient().HSet(context.Background(), cuckooFilter.metadataKey, metadata).Err()
 }
 
